@@ -1,5 +1,6 @@
 use crate::Comp;
 pub mod co;
+pub mod local;
 pub mod nio;
 pub mod qconc;
 pub mod queue;
@@ -10,12 +11,13 @@ pub mod tlcache;
 
 pub static ALL: &[Comp] = &[
     Comp { name: "time", gen: time::gen, exec: time::exec, isolate_ms: 0 },
-    Comp { name: "oq", gen: queue::gen_oq, exec: queue::exec_oq, isolate_ms: 1000 },
+    Comp { name: "oq", gen: queue::gen_oq, exec: queue::exec_oq, isolate_ms: 500 },
     Comp { name: "qconc", gen: qconc::gen, exec: qconc::exec, isolate_ms: 20000 },
     Comp { name: "nio", gen: nio::gen, exec: nio::exec, isolate_ms: 3000 },
     Comp { name: "tlcache", gen: tlcache::gen, exec: tlcache::exec, isolate_ms: 5000 },
     Comp { name: "timeouts", gen: timeouts::gen, exec: timeouts::exec, isolate_ms: 5000 },
     Comp { name: "rtwait", gen: rtwait::gen, exec: rtwait::exec, isolate_ms: 10000 },
     Comp { name: "co", gen: co::gen, exec: co::exec, isolate_ms: 5000 },
-    Comp { name: "pq", gen: queue::gen_pq, exec: queue::exec_pq, isolate_ms: 1000 },
+    Comp { name: "local", gen: local::gen, exec: local::exec, isolate_ms: 5000 },
+    Comp { name: "pq", gen: queue::gen_pq, exec: queue::exec_pq, isolate_ms: 500 },
 ];
